@@ -40,7 +40,8 @@ META = {
             "C12_selection_from_pool (only connected payloads of the pool, after any operation sequence), "
             "C12_selection_valid (no id twice, context by ascending height with each block's predecessor in the tree or "
             "earlier in the context, every VTB/ATV with its containing block / block of proof in the tree or the "
-            "returned context, nothing marked as on the active chain), C12_selection_fits, C12_sorted_order_exists, "
+            "returned context, nothing marked as on the active chain), C12_selection_replays (each payload was admitted in "
+            "the state made by exactly the payloads before it in body order), C12_selection_fits, C12_sorted_order_exists, "
             "C12_generate_pool_effect (tryConnectPayloads + cleanUp: no assertion, no payload appears), "
             "C12_selection_example, and C12_selection_submission_order_refuted / C12_selection_equal_height_refuted "
             "(the result is NOT a function of pool content and tree: rel.vtbs keeps the submission order under the VTB "
